@@ -73,3 +73,12 @@ MUTANTS += [
     ("c11-total-timeout-ignored-async", "C11", [(A, "            if adb_info.timeout_s is not None and time.time() - start > adb_info.timeout_s:", "            if adb_info.timeout_s is not None and time.time() - start > adb_info.timeout_s * 1000:")]),
     ("c11-expected-packet-no-deadline", "C11", [(D, "            if time.time() - start > adb_info.read_timeout_s:\n                # Timeout\n                raise exceptions.AdbTimeoutError(\"Never got one of the expected responses", "            if time.time() - start > adb_info.read_timeout_s * 50:\n                # Timeout\n                raise exceptions.AdbTimeoutError(\"Never got one of the expected responses")]),
 ]
+MUTANTS += [
+    ("c12-connect-keeps-store", "C12", [(D, "            with self._store_lock:\n                # We can release this lock because packets are only added to the store when the transport lock is held\n                self._packet_store.clear_all()\n", "")]),
+    ("c12-send-manual-lock", "C12", [(D, "        with self._transport_lock:\n            self._send(msg, adb_info)", "        self._transport_lock.acquire()\n        self._send(msg, adb_info)\n        self._transport_lock.release()")]),
+    ("c12-send-manual-lock-async", "C12", [(A, "        async with self._transport_lock:\n            await self._send(msg, adb_info)", "        await self._transport_lock.acquire()\n        await self._send(msg, adb_info)\n        self._transport_lock.release()")]),
+    ("c12-close-keeps-store-and-connect-too", "C12", [(D, "            with self._store_lock:\n                # We can release this lock because packets are only added to the store when the transport lock is held\n                self._packet_store.clear_all()\n", ""),
+                                                       (D, "            self._transport.close()\n\n            with self._store_lock:\n                self._packet_store.clear_all()", "            self._transport.close()")]),
+    ("c12-maxdata-sticky", "C12", [(D, "        self._available, self._maxdata = self._io_manager.connect(self._banner, rsa_keys, auth_timeout_s, auth_callback, adb_info)", "        self._available, maxdata = self._io_manager.connect(self._banner, rsa_keys, auth_timeout_s, auth_callback, adb_info)\n        self._maxdata = max(self._maxdata, maxdata) if self._maxdata != constants.MAX_PUSH_DATA else maxdata")]),
+    ("c12-read-lock-not-released-on-error", "C12", [(D, "                # Read from the device\n                cmd, arg0, arg1, data = self._read_packet_from_device(adb_info)\n", "                # Read from the device\n                try:\n                    cmd, arg0, arg1, data = self._read_packet_from_device(adb_info)\n                except exceptions.AdbTimeoutError:\n                    self._store_lock.acquire()\n                    raise\n")]),
+]
